@@ -110,7 +110,8 @@ def cases(draw):
         a = {"type": "circ", "cx": cx, "cy": cy, "r": t[2] * s}
         pyth = [[cx + sx * t[0] * s, cy + sy * t[1] * s] for sx in (-1, 1) for sy in (-1, 1)]
     return {"A": a, "B": b, "points": [list(p) for p in pts], "pyth": pyth,
-            "order": draw(st.integers(0, 3)), "prime": draw(st.booleans())}
+            "order": draw(st.integers(0, 3)), "prime": draw(st.booleans()),
+            "how": draw(st.sampled_from(["num", "num", "num", "str", "copy"]))}
 
 
 def strategy(tier):
@@ -118,7 +119,12 @@ def strategy(tier):
 
 
 # ------------------------------------------------------------------ code under test adapters
+HOW = {"how": "num"}       # how the constructor arguments are handed over in the current case: num | str | copy
+
+
 def build(reg, order=0):
+    how = HOW["how"]
+    conv = (lambda v: repr(float(v))) if how == "str" else (lambda v: v)      # a REST client may post numbers as decimal strings
     if reg["type"] == "rect":
         xs = (reg["x1"], reg["x2"])
         ys = (reg["y1"], reg["y2"])
@@ -126,8 +132,10 @@ def build(reg, order=0):
             xs = (xs[1], xs[0])
         if order & 2:
             ys = (ys[1], ys[0])
-        return RectangularRegion(x1=xs[0], y1=ys[0], x2=xs[1], y2=ys[1], id="r")
-    return CircularRegion(cx=reg["cx"], cy=reg["cy"], r=reg["r"], id="c")
+        obj = RectangularRegion(x1=conv(xs[0]), y1=conv(ys[0]), x2=conv(xs[1]), y2=conv(ys[1]), id="r")
+        return RectangularRegion(obj) if how == "copy" else obj
+    obj = CircularRegion(cx=conv(reg["cx"]), cy=conv(reg["cy"]), r=conv(reg["r"]), id="c")
+    return CircularRegion(obj) if how == "copy" else obj
 
 
 def is_dyadic_small(v):
@@ -142,6 +150,8 @@ def run_case(case, strict=False):  # pylint: disable=unused-argument,too-many-br
         findings.append({"tag": tag, "msg": msg})
 
     A, B = case["A"], case["B"]
+    HOW["how"] = case.get("how", "num")
+    classes.add("args_" + HOW["how"])
     objA, objB = build(A), build(B)
     scale = geom.scale_of(A, B)
     pts = [tuple(p) for p in case["points"]]
